@@ -221,7 +221,7 @@ def predict(results: list[dict], script: str, skip: list) -> list[dict]:
 
 
 def run(chk: common.Check) -> None:
-    chk.cov.rule = ('programs: (X) ALL sequences of ≤3 (quick) / ≤4 (thorough) blocks of a reduced grammar (call, lambda, generator loop, caught exception from a '
+    chk.cov.rule = ('programs: (X) ALL sequences of ≤3 (quick; step/next/continue/mix) / ≤4 (thorough; all five commands + mix) blocks of a reduced grammar (call, lambda, generator loop, caught exception from a '
                     'callee, if/else, sum over a generator, lambda calling a function, while, a loop around `except … as` that leaves the final return without a line number); (S) random programs of the shared generator; (T) templates '
                     '(yield from, close, context managers, library callers without a trace function, finally, uncaught exceptions); (C) threads and asyncio '
                     'tasks with thread tracing on and off; (A) tasks with exceptions raised in callees; (M) module tracing on, descending into the '
